@@ -52,24 +52,27 @@ Definition apply_kernel (k : kernel) (e : expr) : expr :=
   | KInvert => invert_file invert_cfg_v e
   | KGenerator => generator_file generator_cfg_v e
   | KSetLit => rw_set_literal e
-  | KHasattr => rw_hasattr e
+  | KHasattr => rw_hasattr hasattr_cfg_v e
   | KEmptySeq => empty_seq_file empty_seq_cfg_v false e
   | KEmptySeqTest => empty_seq_file empty_seq_cfg_v true e
   | KIdentity => rw_identity e
   end.
 
 Definition output_of (k : kernel) (e : expr) : expr := apply_kernel k e.
-Definition lost_parens (k : kernel) (e : expr) : bool := is_allpar e && negb (paren_safe (apply_kernel k e)).
+Definition lost_parens (k : kernel) (e : expr) : bool :=
+  expr_eqb (norm e) (allpar e) && negb (expr_eqb (norm (apply_kernel k e)) (allpar (apply_kernel k e))).
 
 Definition kernel_guard (k : kernel) (rho : env) (e : expr) : bool :=
-  paren_safe e && paren_safe (apply_kernel k e) &&
+  (* the premises of the theorems: both texts parse back to the trees that were built, the model defines the original *)
+  expr_eqb (norm e) (allpar e) && expr_eqb (norm (apply_kernel k e)) (allpar (apply_kernel k e)) &&
+  in_model (eval rho (norm e)) &&
   match k with
   | KCombineSW => combine_guard combine_cfg_v KStartsEnds rho e
   | KCombineInst => combine_guard combine_cfg_v KInstSub rho e
   | KInvert => table_ok (iv_table invert_cfg_v) && invert_guard invert_cfg_v rho e
   | KGenerator => generator_guard generator_cfg_v rho e
   | KSetLit => true
-  | KHasattr => hasattr_guard rho e
+  | KHasattr => hasattr_guard hasattr_cfg_v rho e
   | KEmptySeq => empty_seq_guard empty_seq_cfg_v false rho e
   | KEmptySeqTest => empty_seq_guard empty_seq_cfg_v true rho e
   | KIdentity => identity_guard rho e
@@ -88,7 +91,7 @@ Definition finding_classes (k : kernel) (rho : env) (e : expr) : list N :=
   | KGenerator => if generator_crashes generator_cfg_v e then []
                   else flat_map generator_site_classes (gen_sites generator_cfg_v rho e)
   | KSetLit => []
-  | KHasattr => nodes_classes hasattr_step hasattr_node_classes rho e
+  | KHasattr => nodes_classes (hasattr_step hasattr_cfg_v) (hasattr_node_classes hasattr_cfg_v) rho e
   | KEmptySeq => if empty_seq_crashes false e then [] else
                  empty_seq_classes empty_seq_cfg_v false rho e ++ (if lost_parens k e then [kf_empty_seq_lost_parens] else [])
   | KEmptySeqTest => if empty_seq_crashes true e then [] else
